@@ -565,7 +565,14 @@ def classify_unify(a, b, eq, un):
         return None
     if eq and not un:
         if strcls(a.bp) or strcls(b.bp):
-            return "constant-str-eq-vs-unify"
+            def ty(bp):
+                return (bp[1], "s" if bp[1] == "Var" else bp[2][0])
+            # narrow: the string comparison bridged two different classes / value types (Constant('f(a)') vs f(a),
+            # Constant(1) vs Constant('1')); two Constants of the same python type that are == but do not unify
+            # are NOT this class
+            if top_cls(a.bp) != top_cls(b.bp) or ty(a.bp) != ty(b.bp):
+                return "constant-str-eq-vs-unify"
+            return None
         if norm_not(a.bp) != a.bp or norm_not(b.bp) != b.bp:
             if unifies(build(norm_not(a.bp)), build(norm_not(b.bp))):
                 return "not-functor-eq-vs-unify"
@@ -617,6 +624,10 @@ def exhaustive_pool():
         pool.append(NOT("not", x))
         pool.append(F("f", NOT("\\+", x)))
         pool.append(F("f", NOT("not", x)))
+    # float constants that differ only beyond the 15th decimal (Constant.FLOAT_PRECISION): arithmetic results vs literals
+    for x, y in FLOAT_TWINS:
+        pool += [K(x), K(y), F("f", K(x)), F("f", K(y)), LIST([K(x)]), LIST([K(y)])]
+    pool += [K(0.25), K("0.3"), atom("0.3")]
     pool += [F("\\+", a), F("not", a), T("AggTerm", s_("f"), a), T("AggTerm", s_("a")),
              LIST([a]), LIST([qa]), LIST([K(1)]), LIST([a, b]), LIST([a], V("T")), LIST([a], K("[]")),
              AND(a, b), AND(a, qa), F(",", a, b), F("','", a, b), OR(a, b), F(";", a, b), CL(a, b), F(":-", a, b),
@@ -639,6 +650,12 @@ def exhaustive_pool():
     return pool
 
 
+FLOAT_TWINS = [(0.1 + 0.2, 0.3), (1.0 / 3.0, 0.333333333333333), (1.1 * 3, 3.3), (1 - 0.9, 0.1), (2.0 / 3.0, 0.666666666666667)]
+FLOAT_TEXTS = ["0.30000000000000004", "0.3", "0.3333333333333333", "0.333333333333333", "3.3000000000000003", "3.3",
+               "0.09999999999999998", "0.1", "0.6666666666666666", "0.666666666666667"]
+# arithmetic evaluated by the engine (is/2); the answers are the Constant objects the engine built
+ENGINE_ARITH = ["0.1+0.2", "1.0/3.0", "1.1*3", "1-0.9", "2.0/3.0", "0.3", "0.5+0.25", "1/4", "3.3"]
+
 ATOMS = ["a", "b", "'a'", "c", "'hello world'", "[]", "X", "1", "f"]
 FUNCTORS = ["f", "g", "'f'", ".", ",", "+", "'+'"]
 
@@ -654,7 +671,7 @@ def rand_bp(rng, depth, top=True):
         if k < 0.4:
             return atom(rng.choice(ATOMS))
         if k < 0.6:
-            return K(rng.choice([0, 1, 2, -1, 10, 1.0, 0.5, 2.5, "a", "1", "1.0", '"s"', "'a'", "f(a)"]))
+            return K(rng.choice([0, 1, 2, -1, 10, 1.0, 0.5, 2.5, 0.1 + 0.2, 0.3, 1.0 / 3.0, 1.1 * 3, "a", "1", "1.0", '"s"', "'a'", "f(a)"]))
         if k < 0.8:
             return V(rng.choice(["X", "Y", "_", "A1", "a"]))
         return T("AggTerm", s_(rng.choice(["a", "f"])))
@@ -724,6 +741,8 @@ def mutate(rng, bp):
             return atom(str(v))
         if k < 0.5:
             return K(str(v))
+        if type(v) is float and k < 0.65:
+            return K(math.nextafter(v, math.inf) if rng.random() < 0.5 else v * 3 / 3 + 1e-16)
         if k < 0.7 and type(v) is int:
             return K(float(v))
         if k < 0.8 and type(v) is float and v == int(v):
@@ -770,14 +789,32 @@ PARSER_TEXTS = [
     "g(a,b,c,d,e,f,g,h,i,j,k,l)", "g(a,b,c,d,e,f,g,h,i,j,k,m)", "g([1,2,3,4,5,6,7,8,9,10,11],a)",
     "g([1,2,3,4,5,6,7,8,9,10,11],b)", "a- -1", "a-(-1)", "f(- 1)", "1.0e10", "f(\"a b\")", "'\\\\+'(a)", "'not'(a)",
     "call(X)", "findall(X,p(X),L)",
-]
+] + FLOAT_TEXTS + ["f(%s)" % t for t in FLOAT_TEXTS[:4]] + ["[%s]" % t for t in FLOAT_TEXTS[:2]]
 ENGINE_TEXTS = [
     "a", "'a'", "b", "f(a)", "f('a')", "'f'(a)", "f(a,b)", "1", "'1'", "1.0", "1.00", "2", "-1", "-(1)", "-(a)", "0.5",
     "\"a\"", "\"1\"", "[]", "'[]'", "[a]", "[a|[]]", "'.'(a,[])", "[a,b]", "[1,2]", "(a,b)", "','(a,b)", "(a;b)",
     "';'(a,b)", "a+b", "'+'(a,b)", "1+2", "a:b", "'hello world'", "f('A')", "f([a,b],c)", "f((a,b))", "f(f(a))",
     "f(f('a'))", "f(1)", "f('1')", "f(1.0)", "f(\"1\")", "g(a,b,c,d,e,f,g,h,i,j,k,l)", "g(a,b,c,d,e,f,g,h,i,j,k,m)",
     "\\+a", "not a", "f(\\+a)", "f(not a)", "\\+'a'",
-]
+] + FLOAT_TEXTS[:6] + ["f(0.30000000000000004)", "f(0.3)"]
+
+
+def engine_arith_terms(ctx):
+    """[(expr, Constant)]: the value the engine computes for `X is expr`"""
+    from problog.engine import DefaultEngine
+    from problog.program import PrologString
+    from problog.logic import Term
+    out = []
+    try:
+        eng = DefaultEngine()
+        db = eng.prepare(PrologString("\n".join("r%d(X) :- X is %s." % (i, e) for i, e in enumerate(ENGINE_ARITH))))
+        for i, e in enumerate(ENGINE_ARITH):
+            for res in eng.query(db, Term("r%d" % i, None)):
+                out.append((e, res[0]))
+    except Exception as ex:
+        ctx.notes.append("engine arithmetic terms unavailable: %r" % (ex,))
+        ctx.count("engine_arith_failed")
+    return out
 
 
 def parse_term(text):
@@ -786,10 +823,16 @@ def parse_term(text):
 
 
 # ====================================================================== the run
+MODEL_OK = True
+
+
 def coq_eval(ctx, items, cases, chunk=2500, jobs=8):
     """evaluate the boolean cases in coqc; every chunk gets a header that defines only the terms it mentions"""
     import re
     from concurrent.futures import ThreadPoolExecutor
+    if not MODEL_OK:
+        ctx.notes.append("model comparison skipped (%d cases): translator or proofs failed on this tree" % len(cases))
+        return []
     chunks = [(i, cases[i:i + chunk]) for i in range(0, len(cases), chunk)]
 
     def one(arg):
@@ -894,7 +937,8 @@ def run_pairs(ctx):
     for bp in exhaustive_pool():
         it = collect(ctx, items, build(bp, probs=False), "ctor:exhaustive")
         if it is not None:
-            assert it.bp == bp, (it.bp, bp)
+            if it.bp != bp:        # a constructor normalised its argument (Constant rounds floats to 15 decimals)
+                ctx.count("ctor_normalised")
             ex.append(it)
     pa = []
     for txt in PARSER_TEXTS:
@@ -904,6 +948,15 @@ def run_pairs(ctx):
             ctx.count("parser_rejected")
             continue
         it = collect(ctx, items, obj, "parser:" + txt)
+        if it is not None:
+            pa.append(it)
+    # floats produced by arithmetic inside the engine (`X is 0.1+0.2`): the answer objects join the parser pool
+    for expr, obj in engine_arith_terms(ctx):
+        it = collect(ctx, items, obj, "engine:is:" + expr)
+        if it is not None:
+            pa.append(it)
+        from problog.logic import Term as _T
+        it = collect(ctx, items, _T("f", obj), "engine:is:f(" + expr + ")")
         if it is not None:
             pa.append(it)
     # constructor twins of the parser terms (same blueprint through the public constructors)
@@ -1021,6 +1074,7 @@ def run_pairs(ctx):
         meta.append(("term", it, None))
 
     ctx.log("terms=%d coq cases=%d" % (len(items), len(cases)))
+    finds.report(ctx)
     bad = coq_eval(ctx, items, cases)
     ctx.cov["model_vs_impl_cases"] = len(cases)
     ctx.cov["model_vs_impl_agree"] = len(cases) - len(bad)
@@ -1033,7 +1087,6 @@ def run_pairs(ctx):
         else:
             ctx.broken.append("correspondence:ModelTermEq (== / unify / hash-key equality) vs problog.logic on %s vs %s"
                               % (desc(a), desc(b)))
-    finds.report(ctx)
 
 
 # ---------------------------------------------------------------------- engine level
@@ -1051,7 +1104,9 @@ def run_engine(ctx):
         ctx.rng.shuffle(pairs)
         keep = [(x, y) for (x, y) in pairs[:700]]
         diag = [(x, x) for x in texts]
-        pairs = diag + keep
+        fl = FLOAT_TEXTS[:6] + ["f(0.30000000000000004)", "f(0.3)"]
+        forced = [(x, y) for x in fl for y in fl if x != y]      # float twins are always judged through the engine
+        pairs = diag + forced + [p for p in keep if p not in set(forced)]
     B = 60
     mism = 0
     for start in range(0, len(pairs), B):
@@ -1143,6 +1198,8 @@ def run_witnesses(ctx):
     gone = [k for k, v in out.items() if not v]
     if gone:
         ctx.notes.append("known finding(s) no longer reproduce on this tree: " + ", ".join(gone))
+    if not MODEL_OK:
+        return
     rc, o = vf.sh(["coqc"] + vf.COQFLAGS + ["-w", "none", "theories/C18/Findings.v"], cwd=vf.COQ, timeout=300)
     ctx.cov["findings_v_compiles"] = (rc == 0)
     if rc:
@@ -1207,13 +1264,36 @@ def run(ctx):
         "terms with a python list among their arguments other than a top-level AnnotatedDisjunction are outside the domain "
         "(Term.__eq__ raises AttributeError on two distinct nested ADs)",
     ]
-    generate(ctx)
-    proved = ctx.prove("C18/Props.v")
-    if proved and ctx.tier == "thorough" and not ctx.replay:
-        ctx.coqchk("PL.C18.Props")
+    # A failing translator or proof is recorded as a broken obligation, but the property-level judge on the real
+    # objects still runs (it needs nothing from the model); only the model comparison is skipped, because the
+    # model is then known not to describe this tree.
+    global MODEL_OK
+    MODEL_OK = True
+    try:
+        generate(ctx)
+    except Exception as e:
+        MODEL_OK = False
+        ctx.broken.append("translator:C18 %s" % (str(e)[:300],))
+        ctx.notes.append("translator failed (fail-closed): %s" % e)
+    if MODEL_OK:
+        try:
+            proved = ctx.prove("C18/Props.v")
+        except Exception as e:
+            proved = False
+            ctx.broken.append("proof-cone:C18/Props.v raised %s" % (str(e)[:200],))
+        if not proved:
+            MODEL_OK = False
+        elif ctx.tier == "thorough" and not ctx.replay:
+            ctx.coqchk("PL.C18.Props")
+    ctx.cov["model_comparison_ran"] = MODEL_OK
     if ctx.replay:
         run_replay(ctx, ctx.replay.get("replay", {}))
         return
-    run_witnesses(ctx)
-    run_pairs(ctx)
-    run_engine(ctx)
+    for step in (run_witnesses, run_pairs, run_engine):
+        try:
+            step(ctx)
+        except Exception:
+            import traceback
+            tb = traceback.format_exc()
+            ctx.notes.append(tb)
+            ctx.broken.append("harness:exception in %s (see notes): %s" % (step.__name__, tb.strip().split("\n")[-1][:200]))
